@@ -31,7 +31,8 @@ ASSUMPTIONS = [
     "both endpoints see it (EOF) before the next connection is made; in the MODEL frames arrive one per read() - on "
     "the implementation side the harness also hands the reader arbitrary chunkings of a frame (splits anywhere, "
     "<= 4096 bytes per read) through the real socket_read_task (chunk-independence itself is C03)",
-    "application hooks return normally; should_replay is the library default (True); the application sends only "
+    "application hooks return normally (theorems and lock-step correspondence; the oracle also injects hooks that RAISE, "
+    "see MODELLED_NOT_VERIFIED); should_replay is the library default (True); the application sends only "
     "application messages (type outside 0 1 2 4 5 A, no header/trailer tags 8 9 10 34 35 49 52 56; an explicit "
     "PossDupFlag(43) other than Y and an OrigSendingTime(122) are allowed and generated) and the "
     "initiator's on_connect sends Logon(98=0, 108=hb)",
@@ -41,6 +42,15 @@ ASSUMPTIONS = [
     "and InRange (outbound counters of the final state <= sys.maxsize + 1, i.e. within SQLite's INTEGER range)",
 ]
 MODELLED_NOT_VERIFIED = [
+    "C07 back-pressure: a send_msg() suspended in drain() (events S / R: the coroutine is parked after write() and resumed "
+    "later, reader-task events of the same endpoint run in between) is an ordinary appSend in the model - the model's send "
+    "is complete once journaled and written; covered by lock-step correspondence + oracle ('accepted' = send_msg returned)",
+    "C07 collaborator faults: application hooks that raise (on_state_change for one state or for every connected state, "
+    "on_message, on_logon, on_logout) are outside the property's quantifier and outside the model; the oracle injects them "
+    "in a window of a random walk, evaluates only the all-times sentences while the fault lasts and the full property after "
+    "the hook works again AND the link was broken and re-established once. Hooks raising inside disconnect() at EOF "
+    "(on_disconnect, on_state_change(DISCONNECTED_*)) are not generated: on the unchanged tree the exception leaves "
+    "socket_read_task() and the reader task ends for good (reported to the integrator)",
     "C07: the theorems quantify over the four base events (appSend, deliverNext, breakConn, reconnect) with in-memory-"
     "equivalent journals. Graceful logout by either application and endpoint RESTART over a file journal (new Journaler "
     "+ new connection object, open transaction lost) are events of the executable extension Model/LinkX.lean "
@@ -79,6 +89,17 @@ class _Log:
         self.eff.append(("R" if str(msg).startswith("socket_read_task") else "C", kind))
 
 
+class _Suspend:
+    """an awaitable that really suspends once (transport back-pressure: drain() waits for the peer to read)"""
+
+    def __await__(self):
+        yield self
+
+
+class HookFault(Exception):
+    """raised by an application hook (fault injection)"""
+
+
 class Pair:
     """initiator + acceptor (two real AsyncFIXConnection objects with their own journals) and the two queues of raw
     frames in flight.  `file=True`: SQLite FILE journals (harness/c09_impl.RImpl) – the configuration in which an
@@ -102,6 +123,7 @@ class Pair:
         self.reset()
 
     def close(self):
+        self.close_pending()
         self.ends["A"].close()
         self.ends["I"].close()
         if self.tmpdir:
@@ -116,11 +138,68 @@ class Pair:
         for e in self.ends.values():
             e.conn.log = _Log(e.eff)
         self.restarts = 0
+        for pc in getattr(self, "pending", {}).values():
+            if pc is not None:
+                pc[0].close()
+        self.pending = {"I": None, "A": None}     # (coroutine, message) of a send_msg() suspended in drain()
+        self.suspend = {"I": False, "A": False}   # the next drain() of that side really suspends
+        self.suspended_total = getattr(self, "suspended_total", 0) + getattr(self, "suspended", 0)
+        self.suspended = 0
+        self.fault = {"I": None, "A": None}       # (hook, argument) that raises on that side, or None
+        self.reader_dead = {"I": False, "A": False}   # an exception escaped from socket_read_task(): the task ended
+        self.faults_raised = 0
+        for side, e in self.ends.items():
+            self._patch_drain(side, e)
+            self._patch_hooks(side, e)
         self.q = {"I": [], "A": []}          # raw frames travelling TOWARDS that side
         self.delivered = {"I": [], "A": []}  # (mtype, fields) handed to on_message
         self.accepted = {"I": [], "A": []}   # (mtype, tags) whose send_msg returned normally
+        self.started = {"I": [], "A": []}    # accepted + sends still suspended in drain(), in the order they began
         self.wire = {"I": [], "A": []}       # (mtype, fields) of every frame written
         self.anomalies = []
+
+    def _patch_drain(self, side, e):
+        pair = self
+
+        async def drain():
+            if pair.suspend[side]:
+                pair.suspend[side] = False
+                await _Suspend()
+
+        e.writer.drain = drain
+
+    def _patch_hooks(self, side, e):
+        """application hooks that can be made to raise: `fault[side] = (hook, arg)`; the hook first does what it always
+        does (the effect is recorded), then raises HookFault when armed for this call"""
+        pair, c = self, e.conn
+
+        if not hasattr(c, "_c07_orig"):
+            c._c07_orig = {}
+
+        def wrap(name, key):
+            orig = c._c07_orig.setdefault(name, getattr(c, name))
+
+            async def hook(*a):
+                await orig(*a)
+                f = pair.fault[side]
+                if f and f[0] == name and (f[1] is None or f[1] == key(*a) or
+                                           (f[1] == "connected" and isinstance(key(*a), int) and key(*a) > 3)):
+                    pair.faults_raised += 1
+                    raise HookFault(name)
+
+            setattr(c, name, hook)
+
+        wrap("on_state_change", lambda st: int(st))
+        wrap("on_message", lambda m: None)
+        wrap("on_logon", lambda h: None)
+        wrap("on_logout", lambda m: None)
+        wrap("on_disconnect", lambda: None)
+
+    def close_pending(self):
+        for side in "IA":
+            if self.pending[side] is not None:
+                self.pending[side][0].close()
+                self.pending[side] = None
 
     # ---- helpers
     def _clock(self, now):
@@ -164,6 +243,8 @@ class Pair:
     # ---- events:  ("s", side, now, (mtype, tags)) ("d", side, now) ("b", now) ("r", now)
     def apply(self, ev):
         k = ev[0]
+        if k == "S" and self.pending[ev[1]] is not None:
+            k = "s"                       # one suspended send per side: a further one completes at once
         if k == "s":
             _, side, now, m = ev
             self._clock(now)
@@ -173,7 +254,63 @@ class Pair:
             toks = self._collect(side)
             if not raised:
                 self.accepted[side].append((m[0], list(m[1])))
+                self.started[side].append([(m[0], list(m[1])), True])
             return toks
+        if k == "S":
+            # BACK-PRESSURE: send_msg() whose drain() really suspends; the coroutine is parked until the `R` event,
+            # other events (the reader task of the same endpoint!) run in between
+            _, side, now, m = ev
+            self._clock(now)
+            e = self.ends[side]
+            mtype, tags = m
+            try:
+                mt = e.FMsg(mtype)
+            except ValueError:
+                mt = mtype
+            msg = e.FIXMessage(mt)
+            for t, v in tags:
+                msg.set(t, v)
+            self.suspend[side] = True
+            coro = e.conn.send_msg(msg)
+            try:
+                coro.send(None)
+            except StopIteration:
+                self.suspend[side] = False
+                self.accepted[side].append((m[0], list(m[1])))
+                self.started[side].append([(m[0], list(m[1])), True])
+            except Exception as exc:
+                self.suspend[side] = False
+                e.eff.append(("R", S.exc_kind(exc)))
+            else:
+                entry = [(m[0], list(m[1])), False]
+                self.pending[side] = (coro, m, entry)
+                self.started[side].append(entry)
+                self.suspended += 1
+            return self._collect(side)
+        if k == "R":
+            # the suspended send of that side resumes (drain() returns) and send_msg() returns
+            side = ev[1]
+            pc = self.pending[side]
+            if pc is None:
+                return []
+            self.pending[side] = None
+            coro, m, entry = pc
+            e = self.ends[side]
+            try:
+                coro.send(None)
+            except StopIteration:
+                self.accepted[side].append((m[0], list(m[1])))
+                entry[1] = True
+            except Exception as exc:
+                e.eff.append(("R", S.exc_kind(exc)))
+            else:
+                self.anomalies.append(("send-suspended-twice", m))
+                coro.close()
+            return self._collect(side)
+        if k == "F":
+            # fault injection: ("F", side, hook, arg) arms a raising hook, ("F", side, None, None) repairs it
+            self.fault[ev[1]] = (ev[2], ev[3]) if ev[2] else None
+            return []
         if k == "d":
             side, now = ev[1], ev[2]
             cuts = list(ev[3]) if len(ev) > 3 else []
@@ -196,11 +333,16 @@ class Pair:
                     pieces.append(seg[:4096])
                     seg = seg[4096:]
             self.chunked = getattr(self, "chunked", 0) + (1 if len(pieces) > 1 else 0)
+            if self.reader_dead[side]:
+                return []                 # nobody reads: the frame stays in the socket buffer
             c._socket_reader = S._Reader(pieces)
             try:
                 S.run_coro(c.socket_read_task())
             except S._Done:
                 pass
+            except Exception as exc:      # the exception left socket_read_task(): the reader TASK is gone for good
+                self.reader_dead[side] = True
+                e.eff.append(("R", "reader-task-died:" + S.exc_kind(exc)))
             if c._socket_reader is not None:
                 c._socket_reader = object()
             if c._msg_buffer:
@@ -215,12 +357,15 @@ class Pair:
             for side in ("I", "A"):
                 e = self.ends[side]
                 c = e.conn
-                if c._socket_reader is not None:
+                if c._socket_reader is not None and not self.reader_dead[side]:
                     c._socket_reader = S._Reader([b""])
                     try:
                         S.run_coro(c.socket_read_task())
                     except S._Done:
                         pass
+                    except Exception as exc:
+                        self.reader_dead[side] = True
+                        e.eff.append(("R", "reader-task-died:" + S.exc_kind(exc)))
                     if c._socket_reader is not None:
                         c._socket_reader = object()
                 toks += self._collect(side)
@@ -250,8 +395,13 @@ class Pair:
             e = self.ends[side]
             if not self.file or self.sock(side):
                 return []
+            if self.pending[side] is not None:
+                self.pending[side][0].close()
+                self.pending[side] = None
             e.restart(1 if side == "I" else 2)
             e.conn.log = _Log(e.eff)
+            self._patch_drain(side, e)
+            self._patch_hooks(side, e)
             self.restarts += 1
             return []
         raise ValueError(ev)
@@ -295,7 +445,8 @@ class Pair:
 
 def ev_tokens(ev):
     k = ev[0]
-    if k == "s":
+    if k in ("s", "S"):
+        # in the model a send is complete when it is journaled and written: the suspension in drain() has no state
         return f"s {ev[1]} {ev[2]} {S.stok(S.stamp(ev[2]))} {S.msg_tok(ev[3])}"
     if k == "d":
         return f"d {ev[1]} {ev[2]} {S.stok(S.stamp(ev[2]))}"
@@ -306,8 +457,11 @@ def ev_tokens(ev):
     return f"{k} {ev[1]} {S.stok(S.stamp(ev[1]))}"
 
 
+MODEL_SILENT = ("R", "F")   # events without a counterpart in the model (resume of a suspended send, fault arming)
+
+
 def ev_now(ev, default=T0):
-    if ev[0] in ("s", "d", "o"):
+    if ev[0] in ("s", "d", "o", "S"):
         return ev[2]
     if ev[0] in ("b", "r"):
         return ev[1]
@@ -319,19 +473,19 @@ def ev_json(ev):
 
 
 def ev_from_json(j):
-    if j[0] == "s":
-        return ("s", j[1], j[2], (j[3][0], [(int(t), v) for t, v in j[3][1]]))
+    if j[0] in ("s", "S"):
+        return (j[0], j[1], j[2], (j[3][0], [(int(t), v) for t, v in j[3][1]]))
     if j[0] == "d" and len(j) > 3:
         return ("d", j[1], j[2], tuple(j[3]))
     return tuple(j)
 
 
 def model_line(events, k, hb=HB):
-    return f"sched.link-run {k} {hb} " + " / ".join(ev_tokens(e) for e in events)
+    return f"sched.link-run {k} {hb} " + " / ".join(ev_tokens(e) for e in events if e[0] not in MODEL_SILENT)
 
 
 def short(ev):
-    return ev[0] + (ev[1] if ev[0] in ("s", "d", "o", "x") else "") + ("~" if ev[0] == "d" and len(ev) > 3 and ev[3] else "")
+    return ev[0] + (ev[1] if ev[0] in ("s", "d", "o", "x", "S", "R", "F") else "") + ("~" if ev[0] == "d" and len(ev) > 3 and ev[3] else "")
 
 
 # ------------------------------------------------------------------------------------------------
@@ -357,6 +511,7 @@ def payload(side, n):
         if (n // 4) % 40 == 3:
             tags.append((354, "4200"))
             tags.append((355, "FIX." + "x" * 4196))   # longer than one 4096-byte read
+    tags.append((5001, f"{side}#{n}"))      # unique within a walk: the oracle matches deliveries to sends by payload
     if n % 3 == 1:
         tags.append((43, "N"))
         if n % 2:
@@ -374,6 +529,7 @@ def gen_walk(pair: Pair, rng, max_len, max_breaks, on_event=None):
     style = rng.random()
     p_logout = rng.choice([0.0, 0.03, 0.06])
     p_chunk = rng.choice([0.0, 0.5, 1.0])
+    p_suspend = rng.choice([0.0, 0.0, 0.4])     # BACK-PRESSURE: sends whose drain() really suspends
     out = []
     for i in range(n):
         now += rng.choice([0, 125, 250, 1000])
@@ -412,6 +568,11 @@ def gen_walk(pair: Pair, rng, max_len, max_breaks, on_event=None):
             else:
                 side = rng.choice("IA")
                 ev = ("s", side, now, payload(side, len(pair.accepted[side]) + i))
+        parked = [s_ for s_ in "IA" if pair.pending[s_] is not None]
+        if parked and rng.random() < 0.25:
+            ev = ("R", rng.choice(parked))
+        elif ev[0] == "s" and rng.random() < p_suspend:
+            ev = ("S",) + ev[1:]
         if ev[0] == "d" and rng.random() < p_chunk:
             ev = ev + (tuple(round(rng.random(), 3) for _ in range(rng.randint(1, 3))),)
         toks = pair.apply(ev)
@@ -554,13 +715,15 @@ def run_events(pair: Pair, events, k):
 
 
 def compare_walk(events, impl_segs, model_reply, label):
+    """impl_segs: one segment per event that has a model counterpart (see MODEL_SILENT)"""
+    pos = [i for i, e in enumerate(events) if e[0] not in MODEL_SILENT]
     msegs = model_reply.split(" | ") if model_reply else []
     if model_reply == "bad-op" or len(msegs) != len(impl_segs):
         return {"input": {"events": [ev_json(e) for e in events], "label": label}, "model": model_reply[:600],
                 "impl": f"{len(impl_segs)} segments"}
     for i, (a, b) in enumerate(zip(impl_segs, msegs)):
         if a != b:
-            return {"input": {"events": [ev_json(e) for e in events[: i + 1]], "label": label, "step": i},
+            return {"input": {"events": [ev_json(e) for e in events[: pos[i] + 1]], "label": label, "step": pos[i]},
                     "model": b[:3000], "impl": a[:3000]}
     return None
 
@@ -668,6 +831,10 @@ def correspondence(ctx):
             segs = []
 
             def on_event(ev, toks, segs=segs):
+                if ev[0] in MODEL_SILENT:
+                    if toks:
+                        pair.anomalies.append(("effects-at-silent-event", ev_json(ev), toks))
+                    return
                 seg = pair.lite(toks)
                 if (len(segs) + 1) % K == 0:
                     seg += " # " + pair.full()
@@ -684,7 +851,7 @@ def correspondence(ctx):
             stats["breaks"][str(b)] = stats["breaks"].get(str(b), 0) + 1
             lb = str(len(events) // 10 * 10)
             stats["walk_len"][lb] = stats["walk_len"].get(lb, 0) + 1
-            for (ev, toks), seg in zip(walk, segs):
+            for (ev, toks), seg in zip([x for x in walk if x[0][0] not in MODEL_SILENT], segs):
                 distinct.add((short(ev), tuple(t.split("=")[0] for t in toks), seg.split(" # ")[1].split(" ")[0],
                               seg.split(" # ")[2].split(" ")[0]))
             walks.append((f"walk{w}", events, segs, K))
@@ -700,6 +867,10 @@ def correspondence(ctx):
                 segs = []
 
                 def on_fevent(ev, toks, segs=segs):
+                    if ev[0] in MODEL_SILENT:
+                        if toks:
+                            fpair.anomalies.append(("effects-at-silent-event", ev_json(ev), toks))
+                        return
                     seg = fpair.lite(toks)
                     if (len(segs) + 1) % K == 0:
                         seg += " # " + fpair.full()
@@ -765,7 +936,8 @@ def correspondence(ctx):
                     "application send on either side with 4 message kinds (explicit 43=N / stale 122; values that look like framing: "
                     "8=FIX.4.4, 10=000, 9=12, FIX.* under tags ending in 8, '=' inside values, values longer than one read), delivery "
                     "of the next frame in either direction as a whole or in 2-4 arbitrary chunks through the real reader loop, "
-                    "graceful logout by either application, on a second population of walks over SQLite FILE journals also "
+                    "graceful logout by either application, sends whose drain() really suspends (resumed later, the reader of the "
+                    "same endpoint runs in between), on a second population of walks over SQLite FILE journals also "
                     "endpoint restart (new Journaler + connection object over the same file), "
                     "break, reconnect+Logon; breaks biased towards recovery phases), each compared with the Link model after "
                     f"EVERY event (effects, states, counters, watermark, stored counters, row counts, queue lengths, quiescence) "
@@ -817,12 +989,19 @@ class Monitor:
         self.quiescent = 0
         self.recoveries = 0
 
-    def check(self, pair: Pair, events):
+    def failures_since(self, events):
+        """is there already a failure recorded for a prefix of this history"""
+        k = [ev_json(e) for e in events]
+        return any(f["input"]["events"] == k[: len(f["input"]["events"])] for f in self.failures[-5:])
+
+    def check(self, pair: Pair, events, completeness=True):
+        """completeness=False: only the sentences that hold at all times (no duplicate, in-order subsequence, no number
+        reused); the quiescence sentences are skipped (used while an injected collaborator fault lasts)"""
         self.n += 1
         fails = []
         for rx, tx in (("I", "A"), ("A", "I")):
             got = [pl(m) for m in pair.delivered[rx]]
-            sent = [pl(m) for m in pair.accepted[tx]]
+            sent = [pl(m) for m, _ in pair.started[tx]]   # accepted + still suspended in drain(), in sending order
             nums = [seqnum(m) for m in pair.delivered[rx]]
             if any(b <= a for a, b in zip(nums, nums[1:])):
                 fails.append((f"C07-duplicate-or-reordered-number:{rx}", "delivered MsgSeqNums are not strictly increasing",
@@ -840,15 +1019,27 @@ class Monitor:
                                   seen[k], pl(m)))
                     break
                 seen[k] = pl(m)
-        if pair.quiescent():
+        for side in "IA":
+            if pair.reader_dead[side]:
+                fails.append((f"C07-reader-task-died:{side}", "an exception left socket_read_task(): the endpoint never reads again",
+                              "the reader task survives", "reader task ended"))
+        if completeness and pair.quiescent():
             self.quiescent += 1
             for rx, tx in (("I", "A"), ("A", "I")):
                 got = [pl(m) for m in pair.delivered[rx]]
-                sent = [pl(m) for m in pair.accepted[tx]]
-                if got != sent:
-                    lost = len(sent) - len(got)
+                # every send that RETURNED must have been delivered, in sending order; a send still parked in drain() (or
+                # abandoned there) has not been accepted: it may or may not have arrived.  Greedy in-order matching
+                # (payloads may repeat).
+                ptr, missing = 0, 0
+                for m, ret in pair.started[tx]:
+                    if ptr < len(got) and got[ptr] == pl(m):
+                        ptr += 1
+                    elif ret:
+                        missing += 1
+                if missing or ptr != len(got):
+                    nret = sum(1 for _, ret in pair.started[tx] if ret)
                     fails.append((f"C07-lost-at-quiescence:{rx}", "at a quiescent point the receiver has not got every accepted message exactly once in order",
-                                  f"{len(sent)} messages", f"{len(got)} messages ({lost} missing)"))
+                                  f"{nret} messages", f"{len(got)} messages ({missing} missing)"))
                 ni = pair.ends[rx].conn._session.next_num_in
                 no = pair.ends[tx].conn._session.next_num_out
                 if ni != no:
@@ -863,7 +1054,11 @@ class Monitor:
 def drain(pair: Pair, events, mon, now, limit=60):
     """deliver everything in flight (alternating directions); reconnect first when disconnected"""
     for _ in range(limit):
-        if not (pair.sock("I") or pair.sock("A")):
+        if pair.pending["I"] is not None:
+            ev = ("R", "I")
+        elif pair.pending["A"] is not None:
+            ev = ("R", "A")
+        elif not (pair.sock("I") or pair.sock("A")):
             ev = ("r", now)
         elif pair.q["A"]:
             ev = ("d", "A", now)
@@ -877,6 +1072,112 @@ def drain(pair: Pair, events, mon, now, limit=60):
         events.append(ev)
         if mon.check(pair, events):
             return
+
+
+FAULT_HOOKS = [("on_state_change", st) for st in (7, 8, 10, 11, 12, 17)] + \
+    [("on_message", None), ("on_logon", None), ("on_logout", None), ("on_state_change", "connected")]
+# Not generated by default (reported to the integrator as an observation outside C07's quantifier, see report): a hook
+# that raises INSIDE disconnect() when disconnect() is called from the `except ConnectionError` handler of
+# socket_read_task() (EOF) - the exception leaves the reader task, which is never started again.
+FAULT_HOOKS_EOF = [("on_disconnect", None), ("on_state_change", 3)]
+
+
+def fault_walk(pair: Pair, rng, mon, max_len, max_breaks, stats):
+    """COLLABORATOR FAULT: an application hook of one endpoint raises (for one connection state, or every time) during a
+    window of a random walk.  The property is silent about raising hooks, so while the fault lasts only the safety
+    sentences are evaluated; after the hook works again the link is broken and re-established once (the property's
+    'breaks and reconnects followed by a completed Logon exchange and quiescence') and then everything the sends
+    accepted must have been delivered exactly once, in order."""
+    side = rng.choice("IA")
+    hook, arg = rng.choice(FAULT_HOOKS)
+    k1 = rng.randint(0, max_len // 2)
+    k2 = k1 + rng.randint(1, max_len // 2)
+    done, bad = [], []
+
+    def on_event(ev, toks):
+        done.append(ev)
+        n = sum(1 for e in done if e[0] != "F")
+        if n == k1 + 1:
+            f = ("F", side, hook, arg)
+            pair.apply(f)
+            done.append(f)
+        elif n == k2 + 1:
+            f = ("F", side, None, None)
+            pair.apply(f)
+            done.append(f)
+        if not bad and mon.check(pair, done, completeness=False):
+            bad.append(1)
+
+    gen_walk(pair, rng, max_len, max_breaks, on_event)
+    key = f"{hook}:{arg}"
+    stats[key] = stats.get(key, 0) + 1
+    stats["raised"] = stats.get("raised", 0) + pair.faults_raised
+    if bad:
+        return
+    tnow = max([ev_now(e) for e in done] + [T0]) + 1000
+    for ev in (("F", side, None, None), ("b", tnow), ("r", tnow + 125)):
+        pair.apply(ev)
+        done.append(ev)
+    drain(pair, done, mon, tnow + 250, limit=400)
+    if not pair.quiescent() and not mon.failures_since(done):
+        mon.failures.append({"signature": "C07-recovery-does-not-complete:after-hook-fault",
+                             "what": "after a raising application hook was repaired, a break, reconnect and Logon exchange do "
+                                     "not bring both ends back to ACTIVE with empty queues",
+                             "input": {"events": [ev_json(e) for e in done]},
+                             "expected": "both ACTIVE, queues empty",
+                             "observed": f"states {pair.state('I')} {pair.state('A')} ({key} on {side})"})
+
+
+def wedge_probes(pair: Pair, mon, dis):
+    """when model and implementation disagree: replay the disagreeing history with the application's on_state_change
+    hook raising for each state entered in the disagreeing step (on the endpoint that entered it), repair the hook, add
+    fresh traffic both ways and deliver everything - WITHOUT a further break.  Both ends connected, nothing in flight and
+    not both ACTIVE with everything delivered = the session is wedged."""
+    import re
+    evs = [ev_from_json(e) for e in dis["input"].get("events", [])]
+    if not evs:
+        return
+    probes = sorted(set(re.findall(r"([IA]):S=(\d+)", dis.get("model", "") + ";" + dis.get("impl", ""))))
+    for side, st in probes:
+        f0 = len(mon.failures)
+        pair.reset()
+        done = []
+        for ev in [("F", side, "on_state_change", int(st))] + evs + [("F", side, None, None)]:
+            pair.apply(ev)
+            done.append(ev)
+            if mon.check(pair, done, completeness=False):
+                break
+        if len(mon.failures) > f0:
+            continue
+        tnow = max(ev_now(e) for e in evs) + 1000
+
+        def deliver_all():
+            for _ in range(2000):
+                nxt = next((("R", s_) for s_ in "IA" if pair.pending[s_] is not None), None) or \
+                    (("d", "A", tnow + 10) if pair.q["A"] else (("d", "I", tnow + 10) if pair.q["I"] else None))
+                if nxt is None:
+                    return False
+                pair.apply(nxt)
+                done.append(nxt)
+                if mon.check(pair, done):
+                    return True
+            return False
+
+        if deliver_all():
+            continue
+        for i, s_ in enumerate("IAIA"):
+            ev = ("s", s_, tnow + i, ("D", [(11, f"probe{i}"), (58, "after the hook works again")]))
+            pair.apply(ev)
+            done.append(ev)
+        if deliver_all():
+            continue
+        if len(mon.failures) == f0 and pair.sock("I") and pair.sock("A") and not pair.quiescent():
+            mon.failures.append({"signature": "C07-wedged-after-hook-fault",
+                                 "what": "an on_state_change hook that raised once for one state leaves the two connected "
+                                         "endpoints wedged: nothing in flight, not both ACTIVE, later messages are dropped",
+                                 "input": {"events": [ev_json(e) for e in done]},
+                                 "expected": "both ACTIVE, queues empty, everything delivered",
+                                 "observed": f"states {pair.state('I')} {pair.state('A')}; hook raised for state {st} on {side}"})
 
 
 def oracle(ctx, disagreements, broken):
@@ -916,6 +1217,9 @@ def oracle(ctx, disagreements, broken):
                                          "expected": "both ACTIVE, queues empty",
                                          "observed": f"states {pair.state('I')} {pair.state('A')}"})
         pair = mpair
+        for dis in disagreements[:40]:
+            if not any(e[0] == "x" for e in dis["input"].get("events", [])):
+                wedge_probes(mpair, mon, dis)
         for _, events in corpus_walks():
             run_list(events)
             ev2 = list(events)
@@ -974,11 +1278,16 @@ def oracle(ctx, disagreements, broken):
             else:
                 mon.recoveries += 1
         # exhaustive on the implementation alone (when the tie is broken, or in the thorough tier)
+        # collaborator faults: raising application hooks
+        fault_stats = {}
+        for _ in range(ctx.n(300, 2500) * (2 if broken else 1)):
+            fault_walk(mpair, ctx.rng, mon, ml, mb, fault_stats)
         pair = mpair
         if broken or ctx.tier == "thorough":
             exhaustive_impl(pair, ctx.n(8, 9), lambda p, events: mon.check(p, events))
         ctx.oracle_stats = {"states_checked": mon.n, "quiescent_points": mon.quiescent, "walks": nw, "file_walks": nwf,
-                            "restarts": restarts_total[0], "chunked_deliveries": getattr(mpair, "chunked", 0) + getattr(fpair, "chunked", 0),
+                            "restarts": restarts_total[0], "hook_faults": fault_stats, "suspended_sends": mpair.suspended_total + fpair.suspended_total,
+                            "chunked_deliveries": getattr(mpair, "chunked", 0) + getattr(fpair, "chunked", 0),
                             "completed_recoveries": mon.recoveries, "failures": len(mon.failures),
                             "long_scenarios": long_stats,
                             "sentences": ["duplicate-or-reordered-number", "not-a-subsequence", "number-reused",
@@ -1022,8 +1331,13 @@ def replay(ctx, rp):
         for ev in events:
             toks = pair.apply(ev)
             done.append(ev)
-            mon.check(pair, done)
-        if rp["signature"] == "C07-recovery-does-not-complete":
+            mon.check(pair, done, completeness=not any(e[0] == "F" for e in done))
+        if rp["signature"] == "C07-wedged-after-hook-fault":
+            wedged = pair.sock("I") and pair.sock("A") and not pair.q["I"] and not pair.q["A"] and not pair.quiescent()
+            print("replay:", " ".join(short(e) for e in events)[:300], "-> states", pair.state("I"), pair.state("A"),
+                  "wedged" if wedged else "not wedged")
+            return bool(wedged)
+        if rp["signature"].startswith("C07-recovery-does-not-complete"):
             drain(pair, done, mon, T0 + 10_000_000)
             if not pair.quiescent():
                 print("replay: not quiescent after drain:", pair.state("I"), pair.state("A"))
